@@ -279,12 +279,14 @@ def split_traces(path, is_reset):
         yield start, cur
 
 
-def cfg_text(spec, consts, invs=(), view=None, post=None, props=()):
+def cfg_text(spec, consts, invs=(), view=None, post=None, props=(), action_constraint=None):
     t = ["SPECIFICATION " + spec] + (["CONSTANTS"] if consts else [])
     for k, v in consts.items():
         t.append("  %s = %s" % (k, v) if not str(v).startswith("<-") else "  %s %s" % (k, v))
     if view:
         t.append("VIEW " + view)
+    if action_constraint:
+        t.append("ACTION_CONSTRAINT " + action_constraint)
     if invs:
         t.append("INVARIANTS " + " ".join(invs))
     if props:
